@@ -116,3 +116,16 @@ def _good_collect_helper(x, results=[]):
 
 def good_collect(x):
     return _good_collect_helper(x, [])
+
+
+def bad_swapped_dims(x):
+    # R-c (metadata): the result is handed the operand's own row_dims / col_dims list objects
+    y = x.copy()
+    y.row_dims, y.col_dims = x.col_dims, x.row_dims
+    return y
+
+
+def good_swapped_dims_in_place(x):
+    # negative control: an in-place swap of an object's own lists shares nothing with another object
+    x.row_dims, x.col_dims = x.col_dims, x.row_dims
+    return x
